@@ -581,7 +581,11 @@ Definition estep_ok (n : nat) (p : pst) (s : N * (N * (N * N))) (rc : N) (la lb 
          then no_closed la && no_closed lb else true) &&
         (* a new connection is announced on both sides *)
         (if ((op =? 11) || (op =? 14)) && p_bup p && negb appa0 && negb appb0
-         then (rc =? 0) && appa && appb else true) &&
+         then (rc =? 0) &&
+              (* ... and stays, unless a node has no protocol left to keep it open *)
+              (if existsb (fun x => x) (fst al1) && existsb (fun x => x) (snd al1)
+               then appa && appb else Bool.eqb appa appb)
+         else true) &&
         (* termination causes terminate *)
         (if ((op =? 15) && (rc =? 0)) || (op =? 16) || (op =? 17) || (op =? 20) || ((op =? 18) && (rc =? 0))
          then negb appa && (negb bup1 || negb appb) else true) in
